@@ -90,7 +90,8 @@ pub fn check(scn: &Scenario) -> Result<CaseInfo, String> {
             let mut ci = CaseInfo::new(nt)
                 .class_if(scn.partial, "partial")
                 .class_if(!scn.partial, "strict")
-                .class(super::verdict_class(&cmp.model_verdict));
+                .class(super::verdict_class(&cmp.model_verdict))
+                .class_if(scn.history.iter().any(|c| c.unwinding), "has-call-by-a-destructor-during-unwinding");
             ci.classes.extend(classes);
             Ok(ci)
         }
@@ -171,15 +172,15 @@ pub fn cell_scenario(cell: &Cell) -> Scenario {
             entry: if cell.ordered { Entry::Next } else { Entry::Each },
             pat,
         });
-        around.push(Call { method: cell.method, arg: other_arg, via: 0 });
-        around.push(Call { method: 1, arg: 0, via: 1 });
-        around.push(Call { method: cell.method, arg: other_arg, via: 1 });
-        around.push(Call { method: 1, arg: 5, via: 0 });
+        around.push(Call { method: cell.method, arg: other_arg, via: 0, unwinding: false });
+        around.push(Call { method: 1, arg: 0, via: 1, unwinding: false });
+        around.push(Call { method: cell.method, arg: other_arg, via: 1, unwinding: false });
+        around.push(Call { method: 1, arg: 5, via: 0, unwinding: false });
     } else {
-        around.push(Call { method: 1, arg: 0, via: 1 });
-        around.push(Call { method: 1, arg: 5, via: 0 });
+        around.push(Call { method: 1, arg: 0, via: 1, unwinding: false });
+        around.push(Call { method: 1, arg: 5, via: 0, unwinding: false });
     }
-    let probe = Call { method: cell.method, arg: cell.arg, via: cell.position % 2 };
+    let probe = Call { method: cell.method, arg: cell.arg, via: cell.position % 2, unwinding: false };
     let pos = match cell.position {
         0 => 0,
         1 => around.len() / 2,
